@@ -37,5 +37,8 @@ C01-1).
 p = os.path.join(V, 'DESIGN.md')
 s = open(p).read()
 i = s.index('## 9. Seeded changes')
-open(p, 'w').write(s[:i] + txt)
+s = s[:i] + txt
+s = re.sub(r'\| seeded changes \(§9\) \| \d+ independently produced property-breaking changes, each confirmed; every one is reported as a VIOLATION by the check of its property \(\d+ of them',
+           '| seeded changes (§9) | %d independently produced property-breaking changes, each confirmed; every one is reported as a VIOLATION by the check of its property (%d of them' % (len(rows), len(late)), s)
+open(p, 'w').write(s)
 print('%d seeds, %d late' % (len(rows), len(late)))
